@@ -217,7 +217,9 @@ def sliceFile (img : Img) (secs : List Sec) (rva min align : Nat) : Out Ref :=
     | .ok false => .err .misaligned
     | .ok true =>
       match rangeFile img.bytes.size secs rva min with
-      | .ok (o, l) => .ok ⟨o, l, align⟩
+      | .ok (o, l) =>
+        -- the bytes are referenced where they are stored: `bytes.as_ptr().aligned_to(align_of)`
+        if (img.base + o) % align = 0 then .ok ⟨o, l, align⟩ else .err .misaligned
       | .err e => .err e
       | .panic s => .panic s
       | .ub s => .ub s
@@ -255,7 +257,9 @@ def readFile (img : Img) (secs : List Sec) (imageBase soi va min align : Nat) : 
     | .ok false => .err .misaligned
     | .ok true =>
       match rangeFile img.bytes.size secs rva min with
-      | .ok (o, l) => .ok ⟨o, l, align⟩
+      | .ok (o, l) =>
+        -- the bytes are referenced where they are stored: `bytes.as_ptr().aligned_to(align_of)`
+        if (img.base + o) % align = 0 then .ok ⟨o, l, align⟩ else .err .misaligned
       | .err e => .err e
       | .panic s => .panic s
       | .ub s => .ub s
